@@ -16,7 +16,7 @@ from .common import SCtx, sctx, fnctx, is_self_call
 from .toposort_rules import check_toposort
 
 PROP = "C01"
-FLOORS = {"C01.R1": 7, "C01.R2": 5, "C01.R3": 8, "C01.R4": 2, "C01.R5": 7, "C01.R6": 1, "C01.R7": 4}
+FLOORS = {"C01.R1": 7, "C01.R2": 5, "C01.R3": 8, "C01.R4": 2, "C01.R5": 7, "C01.R6": 1, "C01.R7": 4, "C01.R8": 14}
 META = {
     "explanation": "Static discharge of the update protocol behind C01: on the control-flow graph of Manager.set_value "
                    "(after inlining of helpers) every path unregisters an existing definition, registers the new ExprTask, "
@@ -421,3 +421,6 @@ def check(col: Collector):
     _task_bodies(col)
     _effect_precision(col)
     _entry_points(col)
+    # in-place updates (`ref += x`) are assignments of (current expression OP x) or (current value OP x)
+    from . import c04
+    c04.inplace_rules(col, "C01.R8")
